@@ -64,7 +64,19 @@ func main() {
 	r.Assume("unjudged by construction: an untagged referrer of removed content that a surviving node still links to (the statement contradicts itself there); everything else is judged conditional on what happened to that node")
 	r.Assume("GC: 'reachable' is read recursively (least fixpoint): a referrer whose subject is reachable only through another kept referrer must be kept; histories with that shape are additionally replayed 8 times on fresh stores and must end with identical blobs/ contents")
 
-	base, err := os.MkdirTemp("", "verif-c09-")
+	// the stores are tiny and short-lived: keep them in memory-backed storage
+	// when the platform offers it (same file-system semantics, far fewer
+	// kernel cycles), else in the default temporary directory
+	shm := ""
+	if os.Getenv("C09_NO_SHM") == "" {
+		if fi, e := os.Stat("/dev/shm"); e == nil && fi.IsDir() {
+			shm = "/dev/shm"
+		}
+	}
+	base, err := os.MkdirTemp(shm, "verif-c09-")
+	if err != nil && shm != "" {
+		base, err = os.MkdirTemp("", "verif-c09-")
+	}
 	if err != nil {
 		fmt.Println("BROKEN: mkdtemp:", err)
 		os.Exit(2)
